@@ -1076,6 +1076,18 @@ func (ex *Exec) doSelect(st *State, fr *Frame, s *ssa.Select) {
 		tv.V = append(tv.V, v)
 	}
 	fr.Regs[s] = tv
+	// a closed channel is always ready to be received from: if the default case is chosen, none of the
+	// channels of the receive cases has been closed
+	if !s.Blocking {
+		hc := st.heapGet(chanClosedClass, SArr(SInt, SBool))
+		for _, state := range s.States {
+			if state.Dir == types.RecvOnly {
+				if cv, ok := ex.val(st, fr, state.Chan).(Scalar); ok {
+					st.assume(Implies(Eq(idx, IntLit(-1)), Not(Select(hc, cv.T))))
+				}
+			}
+		}
+	}
 	// channel invariants: a value received in the chosen case satisfies it; a value offered in a send case must
 	{
 		k := 2
@@ -1087,7 +1099,7 @@ func (ex *Exec) doSelect(st *State, fr *Frame, s *ssa.Select) {
 				k++
 			} else if state.Dir == types.SendOnly {
 				if ci, cet := ex.chanInvOf(state.Chan); ci != nil {
-					ex.emit(st, "pre", ex.srcLabel(fr.Fn, state.Pos, "chan-send"), ex.chanValueFact(st, fr, ci, ex.val(st, fr, state.Send), cet), state.Pos, nil)
+					ex.emit(st, "pre", ex.srcLabel(fr.Fn, state.Pos, "chan-send"), ex.chanValueFact(st, fr, ci, ex.val(st, fr, state.Send), cet), state.Pos, ex.topProps(st))
 				}
 			}
 		}
